@@ -220,7 +220,8 @@ def run():
     for ts, buf in pcap_reader:
         # a packet that cannot be parsed or handled must not abort the run
         try:
-            packet = Packet(buf, ts)
+            # dpkt yields Decimal timestamps for pcap files with nanosecond resolution
+            packet = Packet(buf, float(ts))
 
             if ts == -1:
                 keylog.extend(keylog_reader.get_keys_from_string(buf.decode('ascii')))  # adds secrets from decryption secret block to keylog
